@@ -75,8 +75,10 @@ Nested == { Obj(<< P("inner", x, r), P("list", Arr(x), FALSE) >>, [addlK |-> ""]
 NullRefs == { Obj(<< P("owner", x, r), P("id", Sc("int64", FALSE), TRUE) >>, [addlK |-> ""]) : x \in { Ref("PoolNullStr"), Ref("PoolNullObj") }, r \in BOOLEAN }
             \cup { Arr(Ref("PoolNullStr")), Arr(Ref("PoolNullObj")) }
 \* a component that is nothing but a $ref to another component (schema alias), and properties / items through it
+\* (AaAliasA / AaAliasNames are aliases whose names sort before their targets: declared before what they point to)
 Aliases == { Ref("PoolA"), Ref("PoolNames"), Obj(<< P("via", Ref("PoolAliasA"), TRUE), P("names", Ref("PoolNames"), TRUE), P("more", Ref("PoolNames"), FALSE) >>, [addlK |-> ""]),
-             Arr(Ref("PoolAliasA")) }
+             Arr(Ref("PoolAliasA")),
+             Ref("AaAliasA"), Arr(Ref("AaAliasA")), Obj(<< P("fwd", Ref("AaAliasA"), TRUE), P("names", Ref("AaAliasNames"), FALSE) >>, [addlK |-> ""]) }
 Universe == Aliases \cup NullRefs \cup Scalars \cup { Arr(s) : s \in Scalars } \cup Objects \cup AllOfs \cup OneOfs \cup Nested
 
 EmitSchema(s) == st = "pick" /\ Emit /\ PrintT(ToJson([schema |-> s])) /\ UNCHANGED vars
